@@ -274,7 +274,7 @@ def reader_never_empty_midstream(ctx):
     r = ctx.r
     r.rule("C05.17", "the decoding reader returns '' only at the end of the input", floor=3)
     cls = next((c for c in ctx.repo.module(REL).all_classes if "read" in c.methods and any(
-        isinstance(x, ast.Call) and isinstance(x.func, ast.Attribute) and x.func.attr == "decode" and norm(x.func.value).startswith("self.")
+        isinstance(x, ast.Call) and isinstance(x.func, ast.Attribute) and x.func.attr == "decode" and (norm(x.func.value) == "self" or norm(x.func.value).startswith("self."))
         for x in ast.walk(c.methods["read"].node))), None)
     if cls is None:
         r.idiom("C05.17", False, "reader-class", REL, "no reader class that decodes what it reads was found")
@@ -293,6 +293,19 @@ def reader_never_empty_midstream(ctx):
                  isinstance(a.targets[0], ast.Attribute) and norm(a.targets[0].value) == "self"]
         for nm in names:
             attrs[nm] = decoder if "decod" in nm.lower() else stream
+        # preferably the class's own constructor decides what the object holds: it is run on models of the byte stream and of
+        # the codec (`incrementaldecoder(errors)` -> the incremental decoder above; `decode(data, errors)` -> the codec's
+        # stateless decode, which consumes everything it is given, as codecs.CodecInfo.decode does)
+        if init is not None:
+            codec_info = Record(incrementaldecoder=lambda errors="strict", decoder=decoder: decoder,
+                                decode=lambda data, errors="strict": codecs.utf_8_decode(data, errors, True), name="utf-8")
+            built = {}
+            try:
+                ClassEval(ctx.ce, ctx.repo.module(REL), cls, built, repo=ctx.repo).call("__init__", [stream, codec_info, "replace"])
+                if built:
+                    attrs = built
+            except (AnalysisError, TypeError):
+                pass
         outs = []
         key = "reader::%s" % label
         try:
